@@ -1,4 +1,5 @@
 //! C05 — amount verification rejects every tampered or unbalanced transaction.
+use crate::refimpl::Variant as _;
 use std::collections::BTreeMap;
 
 use elements::confidential::{Asset, AssetBlindingFactor, Nonce, Value, ValueBlindingFactor};
@@ -72,7 +73,7 @@ fn tampers(t: &mut Tape, tx: &Transaction, spent: &[TxOut], must_use: &[usize], 
         }
     };
     let n = tx.output.len();
-    let conf: Vec<usize> = (0..n).filter(|&i| tx.output[i].value.is_confidential()).collect();
+    let conf: Vec<usize> = (0..n).filter(|&i| tx.output[i].value.v_conf()).collect();
     for i in 0..n {
         let o = &tx.output[i];
         // explicit amount +-1, explicit asset replaced
@@ -96,7 +97,7 @@ fn tampers(t: &mut Tape, tx: &Transaction, spent: &[TxOut], must_use: &[usize], 
             b.output[i].asset = Asset::Explicit(other);
             push("explicit-asset-replaced", b, spent.to_vec(), false, &mut out, ctx);
         }
-        if o.value.is_confidential() {
+        if o.value.v_conf() {
             // commitment replaced by another valid one
             let mut a = tx.clone();
             let c = p.commitments[t.below(p.commitments.len())];
@@ -160,7 +161,7 @@ fn tampers(t: &mut Tape, tx: &Transaction, spent: &[TxOut], must_use: &[usize], 
                 push("blinded-output-script-replaced", d, spent.to_vec(), false, &mut out, ctx);
             }
         }
-        if o.asset.is_confidential() {
+        if o.asset.v_conf() {
             let mut a = tx.clone();
             let g = p.generators[t.below(p.generators.len())];
             a.output[i].asset = Asset::Confidential(g);
@@ -219,12 +220,12 @@ fn tampers(t: &mut Tape, tx: &Transaction, spent: &[TxOut], must_use: &[usize], 
     // issuance amounts: commitment replaced / amount removed
     for (k, inp) in tx.input.iter().enumerate() {
         let iss = &inp.asset_issuance;
-        if iss.amount.is_confidential() {
+        if iss.amount.v_conf() {
             let mut a = tx.clone();
             a.input[k].asset_issuance.amount = Value::Confidential(p.commitments[t.below(p.commitments.len())]);
             push("issuance-amount-commitment-replaced", a, spent.to_vec(), false, &mut out, ctx);
         }
-        if iss.inflation_keys.is_confidential() {
+        if iss.inflation_keys.v_conf() {
             let mut a = tx.clone();
             a.input[k].asset_issuance.inflation_keys = Value::Confidential(p.commitments[t.below(p.commitments.len())]);
             push("issuance-inflation-keys-commitment-replaced", a, spent.to_vec(), false, &mut out, ctx);
@@ -243,7 +244,7 @@ fn tampers(t: &mut Tape, tx: &Transaction, spent: &[TxOut], must_use: &[usize], 
     // different spent outputs: the asset. Only where the change is necessarily visible: the spent
     // output has an explicit amount (its commitment v*H changes), every proof uses every domain
     // entry (domain <= 3), or the harness knows that a proof must use this entry.
-    let small_domain = domain_size(tx) <= 3 && tx.output.iter().any(|o| o.asset.is_confidential() && o.witness.surjection_proof.is_some());
+    let small_domain = domain_size(tx) <= 3 && tx.output.iter().any(|o| o.asset.v_conf() && o.witness.surjection_proof.is_some());
     for k in 0..spent.len() {
         let why = match spent[k].value {
             Value::Explicit(v) if v > 0 => Some("spent-output-asset-replaced:explicit-amount"),
@@ -309,7 +310,7 @@ fn tampers(t: &mut Tape, tx: &Transaction, spent: &[TxOut], must_use: &[usize], 
     }
     // permutation: only where it is necessarily detectable (every domain element takes part in each
     // surjection proof, i.e. domain size <= 3, and the exchanged outputs differ in asset generator)
-    if spent.len() >= 2 && domain_size(tx) <= 3 && tx.output.iter().any(|o| o.asset.is_confidential() && o.witness.surjection_proof.is_some()) {
+    if spent.len() >= 2 && domain_size(tx) <= 3 && tx.output.iter().any(|o| o.asset.v_conf() && o.witness.surjection_proof.is_some()) {
         let mut s = spent.to_vec();
         if s[0].asset != s[1].asset {
             s.swap(0, 1);
@@ -328,9 +329,9 @@ fn tamper_passed(tm: &Tamper, base_sig: &str, tx: &Transaction, spent: &[TxOut],
     let form = |o: &TxOut| {
         format!(
             "{} amount {}, {} asset, range proof {}, surjection proof {}, script of {} bytes starting {:02x?}{}",
-            if o.value.is_confidential() { "confidential" } else if o.value.is_null() { "null" } else { "explicit" },
+            if o.value.v_conf() { "confidential" } else if o.value.is_null() { "null" } else { "explicit" },
             o.value.explicit().map_or(String::new(), |v| v.to_string()),
-            if o.asset.is_confidential() { "confidential" } else if o.asset.is_null() { "null" } else { "explicit" },
+            if o.asset.v_conf() { "confidential" } else if o.asset.is_null() { "null" } else { "explicit" },
             if o.witness.rangeproof.is_some() { "present" } else { "absent" },
             if o.witness.surjection_proof.is_some() { "present" } else { "absent" },
             o.script_pubkey.len(),
@@ -357,7 +358,7 @@ fn tamper_passed(tm: &Tamper, base_sig: &str, tx: &Transaction, spent: &[TxOut],
         tx.output.len(),
         tx.input.len(),
         domain_size(tx),
-        tx.input.iter().map(|i| usize::from(i.asset_issuance.amount.is_confidential()) + usize::from(i.asset_issuance.inflation_keys.is_confidential())).sum::<usize>()
+        tx.input.iter().map(|i| usize::from(i.asset_issuance.amount.v_conf()) + usize::from(i.asset_issuance.inflation_keys.v_conf())).sum::<usize>()
     ))
 }
 
@@ -642,7 +643,7 @@ fn tamper_hybrid(t: &mut Tape, ctx: &mut Ctx) -> R {
         }
         if blinded_asset || blinded_value {
             o.nonce = Nonce::Confidential(p.pubkeys[t.below(p.pubkeys.len())]);
-        } else if o.nonce.is_confidential() {
+        } else if o.nonce.v_conf() {
             // an explicit output keeps a null / explicit nonce, not a receiver key
             o.nonce = Nonce::Null;
         }
